@@ -57,11 +57,95 @@ def _call(obj, m, v, k):
     return getattr(obj, m)()
 
 
+def _cached(f):
+    memo = {}
+
+    def g(model):
+        if "r" not in memo:
+            memo["r"] = f(model)
+        return memo["r"]
+    return g
+
+
+def native_law_replay(name):
+    """R1: the real lerax law vs the real distreqx law it is documented to be (same constructor parameters), on random AND extreme parameters / values (near the support's edges),
+    plus the coherence clauses prob = exp(log_prob) and sample_and_log_prob's log-prob = log_prob(sample)."""
+    import distreqx.distributions as RD
+    import distreqx.bijectors as RB
+
+    def real_spec(p):
+        if name.startswith("Categorical"):
+            return RD.Categorical(logits=p) if "logits" in name else RD.Categorical(probs=p)
+        if name.startswith("Bernoulli"):
+            return RD.Bernoulli(logits=p) if "logits" in name else RD.Bernoulli(probs=p)
+        if name == "Normal":
+            return RD.Normal(loc=p[0], scale=p[1])
+        if name == "MultivariateNormalDiag":
+            return RD.MultivariateNormalDiag(loc=p[0], scale_diag=p[1])
+        if name == "SquashedNormal":
+            return RD.Transformed(RD.Normal(loc=p[0], scale=p[1]), RB.Chain((RB.ScalarAffine(scale=p[2] - p[3], shift=p[3]), RB.Sigmoid())))
+        return RD.Transformed(RD.MultivariateNormalDiag(loc=p[0], scale_diag=p[1]), RB.Block(RB.Chain((RB.ScalarAffine(scale=p[2] - p[3], shift=p[3]), RB.Sigmoid())), ndims=1))
+
+    def replay(model):
+        mk_real, _, pstruct, vstruct = WRAPPERS[name]
+        rng = np.random.RandomState(6)
+        cases = []
+        for t in range(12):
+            if name.startswith("Categorical"):
+                raw = rng.randn(3).astype(np.float32) * (1 if t < 6 else 8)
+                p = raw if "logits" in name else np.exp(raw - raw.max()) / np.sum(np.exp(raw - raw.max()))
+                v = np.int32(rng.randint(0, 3))
+            elif name.startswith("Bernoulli"):
+                raw = rng.randn(2).astype(np.float32) * (1 if t < 6 else 8)
+                p = raw if "logits" in name else 1 / (1 + np.exp(-raw))
+                v = rng.randint(0, 2, 2).astype(np.int32)
+            elif name in ("Normal", "MultivariateNormalDiag"):
+                p = np.stack([rng.randn(2) * 3, np.exp(rng.randn(2))]).astype(np.float32)
+                v = (p[0] + p[1] * rng.randn(2) * (1 if t < 6 else 6)).astype(np.float32)
+            else:
+                shape = () if name == "SquashedNormal" else (2,)
+                lo = rng.uniform(-3, 0, shape)
+                hi = lo + rng.uniform(0.5, 10, shape)
+                loc = rng.randn(*shape) * (1 if t < 4 else 12)        # far-out locations push samples against the bounds
+                sc = np.exp(rng.randn(*shape) * (0.3 if t < 8 else 1.5))
+                p = np.stack([loc, sc, hi, lo]).astype(np.float32)
+                frac = rng.uniform(0, 1, shape) if t % 3 else rng.choice([1e-7, 1e-6, 3e-7, 1 - 1e-6, 1 - 2e-7], size=shape)   # values inside and next to the bounds
+                v = (lo + (hi - lo) * frac).astype(np.float32)
+            cases.append((jnp.asarray(p, f32), jnp.asarray(v)))
+        for p, v in cases:
+            real, spec = mk_real(p), real_spec(p)
+            obs = {}
+            for m in ("log_prob", "prob"):
+                a, b = np.asarray(getattr(real, m)(v), np.float64), np.asarray(getattr(spec, m)(v), np.float64)
+                if not np.allclose(a, b, rtol=1e-4, atol=1e-5, equal_nan=True):
+                    obs[m] = dict(lerax=a.tolist(), law=b.tolist())
+            lp, pr = np.asarray(real.log_prob(v), np.float64), np.asarray(real.prob(v), np.float64)
+            if np.all(np.isfinite(lp)) and not np.allclose(pr, np.exp(lp), rtol=1e-3, atol=1e-6):
+                obs["prob_vs_exp_log_prob"] = dict(prob=pr.tolist(), exp_log_prob=np.exp(lp).tolist())
+            key = jax.random.key(5)
+            s, slp = real.sample_and_log_prob(key)
+            s2, slp2 = spec.sample_and_log_prob(key)
+            if not (np.allclose(np.asarray(s, np.float64), np.asarray(s2, np.float64), rtol=1e-5, atol=1e-6) and np.allclose(np.asarray(slp, np.float64), np.asarray(slp2, np.float64), rtol=1e-4, atol=1e-4)):
+                obs["sample_and_log_prob"] = dict(lerax=[np.asarray(s).tolist(), np.asarray(slp).tolist()], law=[np.asarray(s2).tolist(), np.asarray(slp2).tolist()])
+            lps = np.asarray(real.log_prob(s), np.float64)
+            interior = True
+            if name.startswith("Squashed"):   # next to the bounds the float32 inverse of the squashing is ill-conditioned: the clause is replayed on interior samples only
+                fr = (np.asarray(s, np.float64) - np.asarray(p[3], np.float64)) / (np.asarray(p[2], np.float64) - np.asarray(p[3], np.float64))
+                interior = bool(np.all((fr > 1e-2) & (fr < 1 - 1e-2)))
+            if interior and np.all(np.isfinite(lps)) and np.all(np.isfinite(np.asarray(slp))) and not np.allclose(lps, np.asarray(slp, np.float64), rtol=1e-3, atol=1e-3):
+                obs["log_prob_of_returned_sample"] = dict(returned=np.asarray(slp).tolist(), log_prob_of_sample=lps.tolist(), sample=np.asarray(s).tolist())
+            if obs:
+                return dict(reproduced=True, route="R1 (real lerax law vs the real distreqx law on the same parameters; coherence clauses)", inputs=dict(law=name, params=np.asarray(p).tolist(), value=np.asarray(v).tolist()), observed=obs)
+        return dict(reproduced=False, note=f"{len(cases)} parameter/value cases incl. values next to the bounds: identical to the described law, prob = exp(log_prob), sample_and_log_prob coherent")
+    return replay
+
+
 def unit_wrappers(S):
     for name, (mk_real, mk_spec, pstruct, vstruct) in WRAPPERS.items():
         cls = name.split("[")[0]
         fn = f"lerax.distribution:{cls}"
         S.under_contract(fn + ".__init__", "lerax.distribution.base_distribution:AbstractDistreqxWrapper")
+        rp = _cached(native_law_replay(name))
         for m in METHODS:
             ctx = Ctx()
             p = sym(ctx, "param", pstruct)
@@ -75,7 +159,7 @@ def unit_wrappers(S):
                     S.fact(f"{name}.{m}/not-defined", True, function=fn, what=f"{m} is not defined for this law (raises NotImplementedError both in lerax and distreqx)")
                     continue
             names_r = sorted({c.name for c in ctx.calls})
-            S.prove(f"{name}.{m}/is-the-laws-own", ctx, kit.tree_eq(real, spec), function=fn + "." + m,
+            S.prove(f"{name}.{m}/is-the-laws-own", ctx, kit.tree_eq(real, spec), function=fn + "." + m, replay=rp,
                     what=f"{name}(params).{m} is exactly the described law's {m} on the given parameters (structure: {names_r[0].split('.')[1] if names_r else '?'}...)")
     # squashing: support within [low, high] - the REAL distreqx bijector code, traced through
     from distreqx import bijectors as RB
